@@ -76,3 +76,29 @@ Example C04_nonvacuous :
   events (run 3 (firstn 2 ex_drop)) = [] /\ events (run 3 ex_drop) = [EvDropColl 101 15] /\ cnt 101 (run 3 ex_drop) = 1%nat
   /\ keys (run 3 (firstn 2 ex_drop)) = [101%Z] /\ keys (run 3 ex_drop) = [].
 Proof. vm_compute. repeat split. Qed.
+
+(* ---- a stop between the last counted shard and the hand-over of the drop request
+   (model: C04/StopMid.v, cases of harness h_reader -mode c04s checked by C04.SMCheck) ---- *)
+Require Verif.C04.StopMid Verif.C04.StopMidProofs Verif.C04.SMCheck.
+
+(* for every history of starts, stops, shards reading the drop message and stops that close the barrier right before the
+   hand-over - whichever way the callback then takes -: the collection is marked dropped exactly when the one request has
+   been handed over, and a marked collection is not read *)
+Theorem C04_stop_before_handover_every_history : forall shards ls,
+  let s := StopMid.run StopMid.cfg_now shards StopMid.init ls in
+  (StopMid.marked s = true /\ StopMid.reqs s = 1 /\ StopMid.reading s = false) \/ (StopMid.marked s = false /\ StopMid.reqs s = 0).
+Proof. exact StopMidProofs.stopmid_every_history. Qed.
+Print Assumptions C04_stop_before_handover_every_history.
+
+(* whatever happened before: once the collection has been started again and every shard has read the drop message,
+   exactly one request has been handed over in total *)
+Theorem C04_one_request_after_restart : forall shards ls, 1 <= shards ->
+  StopMid.reqs (StopMid.run StopMid.cfg_now shards StopMid.init (ls ++ StopMid.LStop :: StopMid.LStart :: repeat StopMid.LRead shards)) = 1.
+Proof. exact StopMidProofs.one_request_after_restart. Qed.
+Print Assumptions C04_one_request_after_restart.
+
+(* with the mark set before the hand-over the drop is lost when the stop wins *)
+Theorem C04_early_mark_refuted : exists ls,
+  StopMid.reqs (StopMid.run StopMid.cfg_early 1 StopMid.init (ls ++ StopMid.LStop :: StopMid.LStart :: repeat StopMid.LRead 1)) <> 1.
+Proof. exact StopMidProofs.early_mark_refuted. Qed.
+Print Assumptions C04_early_mark_refuted.
